@@ -48,6 +48,7 @@ sim_cfg sim_cfg_from_plan(const J &plan)
 	c.preempt_mean = (unsigned)s.geti("preempt_mean", 0);
 	c.max_steps = s["max_steps"].u64(3000000);
 	c.max_sim_ns = c.boot_ns + s["max_sim_s"].u64(400ull * 86400ull) * SIM_NS;
+	c.stack_fill = (unsigned char)plan.geti("fill", 0xA5);
 	return c;
 }
 
